@@ -135,6 +135,9 @@ theorem inputs_dropped (P : List Obj) (π : List Nat → List Nat) (hπ : ∀ l,
     subst this
     exact hc (List.contains_iff_mem.mpr ((hπ _).mem_iff.mp hb))
 
+def errOf' (r : Except Err Model) : Option Err :=
+  match r with | .ok _ => none | .error e => some e
+
 /-- the witness program: `y = op(b, a)` over two arguments `a` (id 0) and `b` (id 1) -/
 def exP : List Obj :=
   [⟨true, false, "1:[]", [1, 0], []⟩, ⟨true, true, "1:[]", [], []⟩, ⟨true, true, "7:[]", [], []⟩]
@@ -183,6 +186,116 @@ theorem missing_input_keyerror (P : List Obj) (π : List Nat → List Nat) (hπ 
         (fun a => foreign (req.inputs.map (·.name)) (enter (kwargs req) s a)) = true :=
       List.any_eq_true.mpr ⟨a, hmem, foreign_unlisted req s hunnamed a hmiss⟩
     rw [if_pos this]
+
+/-- The hypothesis `hunnamed` of `missing_input_keyerror` / `inputs_dropped` cannot be dropped: the
+    code compares *names*. Argument 1 (made by the internal `arguments_dict`, preset name `"k"`) is
+    needed by the output but not listed; the unused argument 0 is listed under the key `"k"`. With
+    `drop_unused_inputs=True` the model — like the code (known finding
+    `…:preset-name-equals-key`) — returns a graph whose input `"k"` is argument 1 (type `1:[]`),
+    not the listed argument 0 (type `7:[]`), instead of raising KeyError. -/
+theorem missing_input_preset_name_counterexample :
+    inputsOf (build ir
+        [⟨true, false, "1:[]", [1], []⟩, ⟨true, true, "1:[]", [], []⟩, ⟨true, true, "7:[]", [], []⟩]
+        id true ⟨[⟨"k", 0⟩], [⟨"y", 2⟩], true⟩ (fun v => if v = 1 then some "k" else none)).2
+      = some [⟨"k", "1:[]"⟩] := by decide
+
+/-- … while with `drop_unused_inputs=False` the same request does raise KeyError (`scope.var[…]`). -/
+example :
+    errOf' (build ir
+        [⟨true, false, "1:[]", [1], []⟩, ⟨true, true, "1:[]", [], []⟩, ⟨true, true, "7:[]", [], []⟩]
+        id true ⟨[⟨"k", 0⟩], [⟨"y", 2⟩], false⟩ (fun v => if v = 1 then some "k" else none)).2
+      = some .key := by decide
+
+/-- **Exact side condition.** Unlisted Vars may carry names of their own (arguments made by the internal
+    `arguments_dict`) as long as none of those names is a key of `inputs` or a requested output name
+    (`Front.NoClash`) — the boundary of the known finding `…:preset-name-equals-key`.
+    `drop_unused_inputs=True`: the graph inputs are exactly the entries on which some output
+    depends, **in their given relative order**, for every set-iteration order `π`. -/
+theorem inputs_dropped_noclash (P : List Obj) (π : List Nat → List Nat) (hπ : ∀ l, (π l).Perm l)
+    (ins outs : List Entry) (s : Store) (m : Model)
+    (hkeys : (ins.map (·.name)).Nodup) (hobjs : (ins.map (·.obj)).Nodup)
+    (hnc : NoClash ⟨ins, outs, true⟩ s)
+    (h : (build ir P π true ⟨ins, outs, true⟩ s).2 = .ok m) :
+    m.inputs = (ins.filter (fun e => dependsOn P outs e.obj)).map (info P) := by
+  have hir : ir = fixedIR := goodShape_eq generated_good
+  rw [hir] at h
+  have hb := build_ok h
+  rw [body_eq] at hb
+  obtain ⟨_, hfor, hm⟩ := bodyA_ok hb
+  have hargs : argsOf P π ⟨ins, outs, true⟩ = π (freeArgs P outs) := by simp [argsOf]
+  rw [hargs] at hfor hm
+  rw [hm]
+  simp only [Bool.and_self, if_true]
+  rw [← filterMap_ite]
+  apply filterMap_congr'
+  intro e he
+  have hname := enter_entry ⟨ins, outs, true⟩ s hobjs e he
+  have hlisted : e.obj ∈ ins.map (·.obj) := List.mem_map.mpr ⟨e, he, rfl⟩
+  -- an argument of the set whose value info carries `e`'s name is `e`'s Var
+  have hsame : ∀ b ∈ π (freeArgs P outs),
+      ((vinfo P (enter (kwargs ⟨ins, outs, true⟩) s) b).name == e.name) = true → b = e.obj := by
+    intro b hb hn
+    simp only [vinfo, beq_iff_eq] at hn
+    apply named_inj ⟨ins, outs, true⟩ s hkeys b e.obj
+      (listed_of_not_foreign' ⟨ins, outs, true⟩ s hnc b (hfor b hb)) hlisted
+    rw [hn, hname, Option.getD_some]
+  by_cases hc : dependsOn P outs e.obj = true
+  · rw [if_pos hc]
+    have hmem : e.obj ∈ π (freeArgs P outs) :=
+      (hπ _).mem_iff.mpr (List.contains_iff_mem.mp hc)
+    have hinfo : vinfo P (enter (kwargs ⟨ins, outs, true⟩) s) e.obj = info P e := by
+      simp only [vinfo, info, hname, Option.getD_some]
+    rw [← hinfo]
+    apply find?_unique
+    · exact List.mem_map.mpr ⟨e.obj, hmem, rfl⟩
+    · rw [hinfo]; simp [info]
+    · intro y hy hpy
+      obtain ⟨b, hb, rfl⟩ := List.mem_map.mp hy
+      rw [hsame b hb hpy]
+  · rw [if_neg hc, List.find?_eq_none]
+    intro y hy hpy
+    obtain ⟨b, hb, rfl⟩ := List.mem_map.mp hy
+    have := hsame b hb hpy
+    subst this
+    exact hc (List.contains_iff_mem.mpr ((hπ _).mem_iff.mp hb))
+
+/-- (Under `Front.NoClash` instead of "unlisted Vars are unnamed".) If some output depends on an argument that is not listed, build raises KeyError (both flag
+    values, every `π`). -/
+theorem missing_input_keyerror_noclash (P : List Obj) (π : List Nat → List Nat) (hπ : ∀ l, (π l).Perm l)
+    (fixed : Bool) (req : Request) (s : Store) (hwf : WellFormed P req)
+    (hnc : NoClash req s)
+    (a : Nat) (ha : dependsOn P req.outputs a = true) (hmiss : a ∉ req.inputs.map (·.obj)) :
+    (build ir P π fixed req s).2 = .error .key := by
+  have hir : ir = fixedIR := goodShape_eq generated_good
+  rw [hir, build_checked P π fixed req s hwf.inputsArgs hwf.outputsVars hwf.outputsNonempty,
+    body_wf' P π hπ fixed req s hwf.objsNodup hwf.namesDisjoint hwf.programOk.1 hwf.programOk.2
+      hwf.notFormals hnc]
+  have hfree : a ∈ freeArgs P req.outputs := List.contains_iff_mem.mp ha
+  split
+  · rfl
+  · rename_i h3
+    have h3f : (freeArgs P req.outputs).any (fun a => !(argsOf P π req).contains a) = false := by
+      cases hc : (freeArgs P req.outputs).any (fun a => !(argsOf P π req).contains a) with
+      | false => rfl
+      | true => exact absurd hc h3
+    have h3' := List.any_eq_false.mp h3f a hfree
+    have hmem : a ∈ argsOf P π req := by
+      cases hc : (argsOf P π req).contains a with
+      | true => exact List.contains_iff_mem.mp hc
+      | false => rw [hc] at h3'; exact absurd rfl h3'
+    have : (argsOf P π req).any
+        (fun a => foreign (req.inputs.map (·.name)) (enter (kwargs req) s a)) = true :=
+      List.any_eq_true.mpr ⟨a, hmem, foreign_unlisted' req s hnc a hmiss⟩
+    rw [if_pos this]
+
+/-- The counterexample above is exactly a violation of `NoClash`: argument 1 is unlisted and carries
+    the name `"k"`, which is a key. (Non-vacuity of the side condition: with the preset name `"w"`
+    instead, the same request raises KeyError.) -/
+example :
+    errOf' (build ir
+        [⟨true, false, "1:[]", [1], []⟩, ⟨true, true, "1:[]", [], []⟩, ⟨true, true, "7:[]", [], []⟩]
+        id true ⟨[⟨"k", 0⟩], [⟨"y", 2⟩], true⟩ (fun v => if v = 1 then some "w" else none)).2
+      = some .key := by decide
 
 /-- Inputs that are not arguments raise TypeError. -/
 theorem non_argument_typeerror (P : List Obj) (π : List Nat → List Nat) (fixed : Bool) (req : Request)
